@@ -11,6 +11,10 @@ sys.path.insert(0, os.path.dirname(os.path.abspath(__file__)))
 PROPS = ["C01", "C02", "C03", "C04", "C05", "C06", "C07", "C08", "C09", "C10", "C11", "C12", "C13", "C14", "C15", "C16", "C17", "C18", "C19"]
 
 
+# properties whose rules read symbolically evaluated terms: they share the premise "no code is left unexecuted by the evaluator"
+EVALUATED = {"C01", "C02", "C03", "C04", "C07", "C08", "C09", "C10", "C13", "C14", "C15", "C17"}
+
+
 def main():
     ap = argparse.ArgumentParser()
     ap.add_argument("prop")
@@ -31,6 +35,24 @@ def main():
         if a.repo:
             kw = {"repo": a.repo, "tag": a.tag}
         rep = mod.run(a.tier, **kw)
+        # every rule finds "the struct called X" by its short name: two crate types with one name make that lookup ambiguous
+        import ir as _ir
+        F0 = _ir.load("default", a.repo, a.tag) if a.repo else _ir.load("default")
+        seen_names = {}
+        for adt in F0.d["adts"]:
+            if adt["name"].startswith("__"):
+                continue  # (serde_derive's private helper types, one set per derived impl)
+            seen_names.setdefault(adt["name"], set()).add(adt["path"])
+        rep.rule("NAM", "type names are unambiguous: no two types of the crate share a name (the rules look types up by name)", 25)
+        for nm, paths in sorted(seen_names.items()):
+            if len(paths) > 1:
+                rep.violation("%s:ambiguous-name:%s" % (prop, nm), "NAM", "the crate defines %d types called %s (%s): which one a rule means is not decided by its name" % (len(paths), nm, ", ".join(sorted(paths))))
+            else:
+                rep.rules["NAM"].ok(nm)
+        if prop in EVALUATED or prop in ("C12", "C18"):
+            import coverage
+            import ir
+            coverage.report(rep, ir.load("default", a.repo, a.tag) if a.repo else ir.load("default"), cov=prop in EVALUATED)
         if a.tier == "thorough" and not a.repo and not os.environ.get("VERIF_SELFVAL"):
             try:
                 import thorough
